@@ -92,6 +92,10 @@ func discoverFlags(env *Env) {
 	}
 }
 
+// completions in the alphabet of the atomic-event explorations: `__complete bug show ""` (bug ids),
+// `__complete bug label new ""` (bug ids, then labels), `__complete user adopt ""` (user ids)
+var atomicCOMP = []string{"bug-show-missing", "bug-label-new", "user-adopt"}
+
 var allCLI = []string{"bug-new", "bug-show-missing", "bug-rm-missing", "pull-missing", "user-new", "bug-list", "wipe", "webui-bad-port", "termui-no-tty"}
 
 type planned struct {
@@ -108,13 +112,13 @@ func plan(tier string) []planned {
 	var ps []planned
 	if tier == "thorough" {
 		ps = []planned{
-			{Config{Name: "3 holders + CLI, atomic events", Holders: 3, CLI: allCLI, UCLI: otherUIDCLI, Depth: 10}, 18 * time.Minute},
+			{Config{Name: "3 holders + CLI, atomic events", Holders: 3, CLI: allCLI, UCLI: otherUIDCLI, COMP: atomicCOMP, Depth: 10}, 18 * time.Minute},
 			{Config{Name: "inside of two concurrent opens, no lock file", Holders: 2, Step: true}, 4 * time.Minute},
 			{Config{Name: "inside of two concurrent opens, lock left by a dead holder", Holders: 3, Step: true, Prefix: stale}, 4 * time.Minute},
 		}
 	} else {
 		ps = []planned{
-			{Config{Name: "2 holders + CLI, atomic events", Holders: 2, CLI: allCLI, UCLI: otherUIDCLI, Depth: 8}, 4 * time.Minute},
+			{Config{Name: "2 holders + CLI, atomic events", Holders: 2, CLI: allCLI, UCLI: otherUIDCLI, COMP: atomicCOMP, Depth: 8}, 4 * time.Minute},
 			{Config{Name: "inside of two concurrent opens, no lock file", Holders: 2, Step: true}, 2 * time.Minute},
 			{Config{Name: "inside of two concurrent opens, lock left by a dead holder", Holders: 3, Step: true, Prefix: stale}, 2 * time.Minute},
 		}
@@ -141,7 +145,7 @@ func plan(tier string) []planned {
 		{"identity selected, invalid git-bug.webui.open configuration value", []string{"cli:user-new", "prep:webui-open-invalid"}},
 		{"identity and a bug that cannot be read, cache files gone", []string{"cli:user-new", "cli:bug-new", "prep:bug-unreadable-cache-gone"}},
 	} {
-		ps = append(ps, planned{Config{Name: "command sweep: " + sit.name, Holders: 1, Prefix: sit.prefix, CLI: every, UCLI: every, Depth: 1}, 5 * time.Minute})
+		ps = append(ps, planned{Config{Name: "command sweep: " + sit.name, Holders: 1, Prefix: sit.prefix, CLI: every, UCLI: every, COMP: every, COMPFlags: true, Depth: 1}, 5 * time.Minute})
 	}
 	// flag sweep: every command with each single local flag and each pair of local flags
 	var flagged []string
@@ -330,7 +334,7 @@ func Main(args []string) {
 			verdicts[f.Oracle] += f.Count
 		}
 		runs = append(runs, map[string]any{
-			"name": cfg.Name, "holders": cfg.Holders, "inside_open": cfg.Step, "prefix": cfg.Prefix, "cli_catalogue": cfg.CLI, "cli_catalogue_other_uid": cfg.UCLI, "flag_sweep_commands": cfg.FCLI,
+			"name": cfg.Name, "holders": cfg.Holders, "inside_open": cfg.Step, "prefix": cfg.Prefix, "cli_catalogue": cfg.CLI, "cli_catalogue_other_uid": cfg.UCLI, "flag_sweep_commands": cfg.FCLI, "completion_commands": cfg.COMP, "completion_of_flag_values": cfg.COMPFlags,
 			"depth_bound": cfg.Depth, "depth_completed": ex.DepthDone, "states": ex.States, "transitions": ex.Transitions,
 			"process_runs": ex.Executions, "new_states_per_depth": ex.PerDepth, "terminal_states": ex.Terminal,
 			"event_orders_represented": ex.Orders, "exhaustive": ex.Exhaustive, "fixpoint": ex.Fixpoint, "violation_shapes": found,
@@ -397,6 +401,13 @@ func Main(args []string) {
 	fsw["killed_at_timeout_not_judged"] = killed
 	fsw["variant_time_limit_s"] = flagLimit.Seconds()
 	cov["flag_sweep"] = fsw
+	comps := 0
+	for k, v := range outcomes {
+		if strings.HasPrefix(k, "comp:") {
+			comps += v
+		}
+	}
+	cov["completion_runs"] = comps
 	cov["cli_commands_not_in_catalogue"] = uncoveredCommands(env)
 	ev := evidence.Evidence{PropertyID: "C19", Tier: tier, Seed: evidence.Seed(), Level: "model_checking", Coverage: cov,
 		Assumptions: assumptions, WallS: time.Since(start).Seconds(), Violations: rep.Viol, Known: rep.KnownSeen()}
